@@ -24,6 +24,9 @@ func init() {
 	wantRefs("C18")
 }
 
+// pkgConstNames: package-level names that are constants ("pkgpath.Name"), filled by packageVarInits.
+var pkgConstNames = map[string]bool{}
+
 // packageVarInits renders every package-level variable/constant initialiser of a loaded package (format-insensitive).
 func packageVarInits(c *Ctx, pkgPath string) map[string]string {
 	p := c.ByPath[pkgPath]
@@ -42,7 +45,12 @@ func packageVarInits(c *Ctx, pkgPath string) map[string]string {
 				for i, n := range vs.Names {
 					var buf bytes.Buffer
 					if i < len(vs.Values) {
-						printer.Fprint(&buf, token.NewFileSet(), keyedLits(p.TypesInfo, vs.Values[i]))
+						// an initialiser that is a constant expression is its value (`1 * time.Second` and `time.Second`)
+						if tv, ok := p.TypesInfo.Types[vs.Values[i]]; ok && tv.Value != nil {
+							buf.WriteString(tv.Value.ExactString())
+						} else {
+							printer.Fprint(&buf, token.NewFileSet(), keyedLits(p.TypesInfo, vs.Values[i]))
+						}
 					} else if len(vs.Values) == 0 && gd.Tok == token.CONST {
 						buf.WriteString("<iota-continued>")
 					}
@@ -52,7 +60,12 @@ func packageVarInits(c *Ctx, pkgPath string) map[string]string {
 							buf.WriteString(k)
 						}
 					}
-					out[n.Name] = strings.Join(strings.Fields(buf.String()), " ")
+					txt := strings.Join(strings.Fields(buf.String()), " ")
+					txt = strings.ReplaceAll(txt, "interface{}", "any") // the predeclared alias
+					if gd.Tok == token.CONST {
+						pkgConstNames[pkgPath+"."+n.Name] = true
+					}
+					out[n.Name] = txt
 				}
 			}
 		}
@@ -79,6 +92,9 @@ func c18r1(r *R) {
 		for _, k := range names {
 			rv, ok := ref[k]
 			if !ok {
+				if pkgConstNames[modPath+"/pkg/http2/hpack."+k] {
+					continue // a named constant of its own: its value shows wherever it is used
+				}
 				o.Fail("package-level %s exists only in pkg/http2/hpack", k)
 				continue
 			}
